@@ -929,7 +929,7 @@ class Ensemble(NamedItem):
             # NB. The calling code must be wrapped in a 'if __name__ == '__main__'
             # Currently not passing in any extra kwargs but that should be easy to add if/when required
             # (main reason for deferring implementation is so as to have suitable test code when developing)
-            self.samples = sc.parallelize(_sample_and_map, iterarg=n_samples, kwargs={"mapping_function": self.mapping_function, "max_attempts": max_attempts, "proj": proj, "parset": parset, "progset": progset, "progset_instructions": progset_instructions, "result_names": result_names})
+            self.samples = sc.parallelize(_sample_and_map_worker, iterarg=n_samples, kwargs={"mapping_function": self.mapping_function, "max_attempts": max_attempts, "proj": proj, "parset": parset, "progset": progset, "progset_instructions": progset_instructions, "result_names": result_names})
         else:
             original_level = logger.getEffectiveLevel()
             logger.setLevel(logging.WARNING)  # Never print debug messages inside the sampling loop - note that depending on the platform, this may apply within `sc.parallelize`
@@ -1546,6 +1546,20 @@ class Ensemble(NamedItem):
 
             figs.append(fig)
         return figs
+
+
+def _sample_and_map_worker(*args, **kwargs):
+    """
+    Run `_sample_and_map` on a parallel worker
+
+    Worker processes inherit a copy of the parent's random number generator state, so the
+    generator is re-seeded before sampling. Otherwise, samples drawn on different workers
+    would be identical to each other.
+
+    """
+
+    np.random.seed()
+    return _sample_and_map(*args, **kwargs)
 
 
 def _sample_and_map(proj, parset, progset, progset_instructions, result_names, mapping_function, max_attempts, **kwargs):
